@@ -70,6 +70,8 @@ type FDCase struct {
 	// Wrap: the (faulted) plain sfnt image is stored on the simulated disk re-packaged as
 	// "woff" (zlib-compressed tables) or "ttc" (a collection of two members sharing all tables)
 	Wrap string `json:"wrap,omitempty"`
+	// Post: stored-byte faults applied to the re-packaged container (its own directory fields)
+	Post []ByteFault `json:"post,omitempty"`
 }
 
 // storedImage applies the byte faults and the container re-packaging of a case.
@@ -78,11 +80,11 @@ func storedImage(c *FDCase, pristine []byte) []byte {
 	switch c.Wrap {
 	case "woff":
 		if w, ok := faultdisk.WrapWOFF(img); ok {
-			return w
+			return applyByteFaults(w, c.Post)
 		}
 	case "ttc":
 		if w, ok := faultdisk.WrapTTC(img, 2); ok {
-			return w
+			return applyByteFaults(w, c.Post)
 		}
 	}
 	return img
@@ -463,6 +465,20 @@ func (e *fdEngine) Generate(seed uint64, tier string, run int) (json.RawMessage,
 	}
 	if kind == faultdisk.KindSfnt && rk.Chance(0.1) {
 		c.Wrap = kernel.Pick(rk, []string{"woff", "woff", "ttc"})
+		if rk.Chance(0.5) {
+			// one field of the container's own directory (offset, stored length, original length)
+			if wimg := storedImage(&c, img); len(wimg) > 0 {
+				if _, wt := faultdisk.ParseDirectory(wimg); len(wt) > 0 {
+					t := kernel.Pick(rf, wt)
+					fields := []int{8, 12}
+					if c.Wrap == "woff" {
+						fields = []int{4, 8, 12}
+					}
+					vals := []uint32{0, 1, 0xFFFFFFFF, 0x7FFFFFFF, 0x80000000, uint32(len(wimg)), uint32(len(wimg) + 1), 1<<20 + 1, 1 << 29, uint32(t.Length + 1), uint32(t.Length - 1)}
+					c.Post = []ByteFault{{Kind: "set32", Off: t.DirEntry + kernel.Pick(rf, fields), Val: kernel.Pick(rf, vals), Aim: t.Tag + ":" + c.Wrap + "-direntry"}}
+				}
+			}
+		}
 	}
 	if nIO > 0 {
 		calls := ioCalls(c.Font)
@@ -895,7 +911,9 @@ func (e *fdEngine) execute(raw json.RawMessage, profiled bool) (*kernel.Outcome,
 		}
 	}
 	if v == nil && len(c.IO) == 0 {
-		if c.Wrap != "" {
+		if len(c.Post) > 0 {
+			// the container's own directory is damaged: what a record points at is then undefined
+		} else if c.Wrap != "" {
 			v = w.readerFidelity(applyByteFaults(pristine, c.Bytes), img)
 		} else {
 			v = w.readerFidelity(img, img)
@@ -1191,6 +1209,14 @@ func (e *fdEngine) Shrink(raw json.RawMessage, class string, test func(json.RawM
 	// drop faults one by one
 	c.Bytes = kernel.DDMin(c.Bytes, func(b []ByteFault) bool { cand := c; cand.Bytes = b; return try(cand) }, 30)
 	c.IO = kernel.DDMin(c.IO, func(b []faultdisk.ReadFault) bool { cand := c; cand.IO = b; return try(cand) }, 30)
+	c.Post = kernel.DDMin(c.Post, func(b []ByteFault) bool { cand := c; cand.Post = b; return try(cand) }, 10)
+	if c.Wrap != "" && len(c.Post) == 0 {
+		cand := c
+		cand.Wrap = ""
+		if try(cand) {
+			c = cand
+		}
+	}
 	if c.Via != "parsettc" {
 		cand := c
 		cand.Via = "parsettc"
